@@ -51,7 +51,7 @@ def analyse(case, lab, port, entry, out, classes, exact):
     """reference FIFO server driven by the observed interleaving of arrival and departure taps"""
     rate = case["rate"]
     qlimit, by_bytes = case["qlimit"], case["limit_bytes"]
-    tol = (lambda a, b: a == b) if exact else (lambda a, b: abs(a - b) <= 1e-9 * max(1, abs(a), abs(b)))
+    tol = (lambda a, b: a == b) if exact else (lambda a, b: abs(a - b) <= 1e-12 * max(1, abs(a), abs(b)))
     events = [("in", r.seq, r, dropped) for r, dropped in entry.recs] + [("out", r.seq, r, None) for r in out.recs]
     events.sort(key=lambda e: e[1])
     accepted = []       # dict per accepted packet
@@ -190,7 +190,7 @@ def port_strategy(tier):
 
     def build(exact):
         rate = kgen.weighted([(netlab.exact_rate(3, 16), 6), (st.just(0), 1)]) if exact else \
-            st.sampled_from([1000.0, 9600, 1e6, 12345.678, 3e5, 0.0, 7777])
+            st.sampled_from([1000.0, 9600, 1e6, 12345.678, 3e5, 0.0, 7777, 3e6, 2.4e10])
         sizes = st.sampled_from([1, 2, 3, 5, 10, 100, 200, 500, 1000, 1500])
         wl = netlab.workload([0, 1, 2], n_max=60 if big else 30, exact=exact, sizes=sizes, min_size=3)
         lim = kgen.weighted([(st.tuples(st.just(True), st.sampled_from([1000, 1500, 2000, 3000, 600, 100, 10, 5])), 4),
